@@ -1004,7 +1004,64 @@ def _derives_from_request_bytes(p, upto: int, name: str, depth: int = 0) -> bool
     return False
 
 
+def r7(ctx: Ctx, rep: Report):
+    """The bus address a frame carries is the one the caller configured: the command factories read self._comm_addr
+    (C03.R5); here: every assignment of that attribute in the protocol classes stores a constructor parameter
+    unchanged, and the subclasses' constructors forward their own parameter to it."""
+    from ..replay import Replay
+    from ..astutil import self_store
+    prog, res = ctx.prog, ctx.res
+    base = prog.cls("InverterProtocol")
+    attr = "_comm_addr"
+    writers = []
+    for ci in prog.all_subclasses(base, include_self=True):
+        for m in ci.methods.values():
+            if any(a == attr for n in ast.walk(m.node) if isinstance(n, ast.stmt) for a, _, _ in self_store(n)):
+                writers.append(m)
+    if not writers:
+        raise AnalysisError("no method of the protocol classes assigns self.%s" % attr)
+    target = ast.Attribute(value=ast.Name(id="self", ctx=ast.Load()), attr=attr, ctx=ast.Load())
+    src_param = {}
+    for m in writers:
+        ok, why, pname = m.name == "__init__", "", None
+        if not ok:
+            why = "%s re-assigns self.%s after construction" % (m.short, attr)
+        else:
+            for p in enumerate_paths(prog, m, no_raise):
+                if p.end == "raise":
+                    continue
+                rp = Replay(prog, m, p)
+                t = rp.sym.lin(target).single_term()
+                if t is None or t[0] != "var" or t[1] not in m.params[1:]:
+                    ok, why = False, "%s stores %s, not the address it was given" % (m.short, next((norm(v) for n in ast.walk(m.node) if isinstance(n, ast.stmt) for a, v, _ in self_store(n) if a == attr and v is not None), "?"))
+                    break
+                pname = t[1]
+        src_param[m] = pname
+        rep.check(ok, "C03.R7", "address:%s" % m.short, m.loc(), "%s stores its parameter %s unchanged as self.%s" % (m.short, pname, attr),
+                  bad="%s: requests then carry another bus address than the configured one" % why)
+    # constructors of the subclasses hand their own address parameter on
+    for m0, pname in src_param.items():
+        if pname is None or m0.name != "__init__":
+            continue
+        pos = m0.params.index(pname) - 1
+        for ci in prog.all_subclasses(m0.cls, include_self=False):
+            sub = ci.methods.get("__init__")
+            if sub is None:
+                continue
+            calls = [n for n in res._own_nodes(sub) if isinstance(n, ast.Call) and isinstance(n.func, ast.Attribute) and n.func.attr == "__init__"
+                     and m0 in res.resolve_call(n, sub).funcs]
+            for c in calls:
+                off = 0 if isinstance(c.func.value, ast.Call) else 1      # super().__init__(...) vs Base.__init__(self, ...)
+                a = c.args[pos + off] if len(c.args) > pos + off else next((k.value for k in c.keywords if k.arg == pname), None)
+                ok = isinstance(a, ast.Name) and a.id in sub.params and not any(
+                    isinstance(n, ast.Name) and n.id == a.id and isinstance(n.ctx, ast.Store) for n in ast.walk(sub.node))
+                rep.check(ok, "C03.R7", "address:%s" % sub.short, sub.loc(c), "%s forwards its parameter %s" % (sub.short, norm(a) if a is not None else "?"),
+                          bad="%s passes %s as the bus address to %s, not the address it was given" % (sub.short, norm(a) if a is not None else "nothing", m0.short))
+
+
 def check(ctx: Ctx, rep: Report):
+    rep.rule("C03.R7", "the bus address of the frames is the configured one: self._comm_addr is a constructor parameter stored unchanged and forwarded by the subclasses", 3)
+    r7(ctx, rep)
     rep.rule("C03.R1", "the four Modbus request builders produce the reference frame layout", 4)
     rep.rule("C03.R6", "the transport is written only by _send_request (which renews the Modbus/TCP transaction id)", 2)
     from .proto import only_send_request_transmits as _shared_C03_R6, proto_classes as _pcs
